@@ -172,10 +172,10 @@ def run_sequence(seq, nh=3):
                         obs.start()
                         started = True
                 elif k == "stop":
-                    if started and not stopped:
-                        obs.stop()
-                        stopped = True
-                        model.clear()
+                    # at any time, also before start() and repeatedly: it empties the registry every time
+                    obs.stop()
+                    stopped = True
+                    model.clear()
             except Violation:
                 raise
             tm.sleep(2.0)
@@ -217,8 +217,9 @@ def run_sequence(seq, nh=3):
                         cnt = [h.got.count(name) for h in hs if name in h.got]
                         if any(c != 1 for c in cnt):
                             raise Violation(f"after {desc}: marker delivered {cnt} times", "marker-duplicate")
-        if started and not stopped:
-            obs.stop()
+        obs.stop()
+        if list(obs.emitters):
+            raise Violation(f"after the final stop() of sequence {seq}: emitters {[str(e.watch) for e in obs.emitters]} are still reported", "emitters-differ-from-model")
         if started:
             obs.join()
         return info
